@@ -214,6 +214,20 @@ def h_frame(ctx, rule, kind, iz, fecf, ocf, vcf, n, twin=False):
         (u.insert_zone == info["iz"]) if iz else (not u.insert_zone), (u.op_ctrl_field == info["ocf"]) if ocf else (not u.op_ctrl_field),
         (u.fecf == info["fecf"]) if fecf else (not u.fecf), u.len() == len(raw)))
     ctx.holds("repack identical", u.pack(truncated=(kind == "truncated"), frame_type=ftype) == raw)
+    # the data field on its own, with the frame type given and with frame_type=None (documented: then the construction rule
+    # alone decides whether the pointer field is there)
+    tl = (3 if info["fixed"] else 1) + n
+    start = info["total"] - fecf - (4 if ocf else 0) - tl
+    tfdf_raw = ctx.bytes_of(ref[start:start + tl])
+    for ft in (ftype, None):
+        e3, d = call(TransferFrameDataField.unpack, tfdf_raw + ctx.octets("after_tfdf_%s" % (ft is None), 2), kind == "truncated", tl, ft)
+        ctx.holds("data field decoded alone (frame type %s): same rule, protocol id, pointer, data zone; re-packs identically" % (
+            "given" if ft is not None else "None"), e3 is None and sym_and(
+            d.tfdz_contr_rules == rule, d.uslp_ident == info["upid"], d.tfdz == info["tfdz"], len(d.tfdz) == n,
+            (d.fhp_or_lvop == info["ptr"]) if info["fixed"] else (d.fhp_or_lvop is None), d.len() == tl,
+            call(lambda: d.pack(truncated=(kind == "truncated"), frame_type=ft) == tfdf_raw)[1]), exc_name(e3))
+        ctx.holds("should_have_fhp_or_lvp_field (frame type %s) == fixed-length rule and not truncated" % ("given" if ft is not None else "None"),
+                  fr.tfdf.should_have_fhp_or_lvp_field(truncated=(kind == "truncated"), frame_type=ft) == (info["fixed"] and kind != "truncated"))
     pack_hands_out_fresh_buffers(ctx, lambda: fr.pack(truncated=(kind == "truncated"), frame_type=ftype), ctx.bytes_of(ref))
     o_hdr = PrimaryHeader(0xABCD, 1, 0x3F, 0xF, 0, 1, 1, False, 2, 0xBEEF)
     o_fr = TransferFrame(o_hdr, TransferFrameDataField(7, 5, b"\x01\x02\x03\x04\x05"), None, None, None)
